@@ -1,4 +1,5 @@
 import ShuttleProofs.C07
+import ShuttleProofs.C07Join
 /-! `#print axioms` for every property theorem of C07. -/
 open ShuttleProofs
 
@@ -13,3 +14,10 @@ open ShuttleProofs
 #print axioms C07.closure_runs_once
 #print axioms C07.scope_waits_for_all
 #print axioms C07.scope_unblock_only_when_waiting
+
+-- the wait loop of `JoinHandle::join` (F29 repaired): ShuttleProofs/C07Join.lean
+#print axioms C07.joinWait_exits_only_via_finished_answer
+#print axioms C07.not_exitsViaNotBlocking_pure
+#print axioms C07.runSegment_setWaiter
+#print axioms C07.join_returns_only_when_finished_loop
+#print axioms C07.joinWait_segment
